@@ -700,3 +700,69 @@ mut("c14-batch-error-continues", ["C14"], [(HI, '''	err := h.writeHeadersToTarge
 	}
 ''')], ["C14.G2"])
 mut("c14-quiet-rename-index-var", ["C14"], [(HI, "	batchStartIdx := sourceStartIdx\n", "	batchStartIdx := sourceStartIdx + 0\n")], [])
+
+# ---- C09 ----
+RS = "rescan.go"
+mut("c09-no-parent-check", ["C09"], [(RS, '''	if header.PrevBlock != rs.curStamp.Hash {
+		return fmt.Errorf("out of order block %v: expected PrevBlock "+
+			"%v, got %v", header.BlockHash(), rs.curStamp.Hash,
+			header.PrevBlock)
+	}
+''', '')], ["C09.G1", "C09.G3"])
+mut("c09-pays-only-if-not-relevant", ["C09"], [(RS, '''		pays, err := ro.paysWatchedAddr(tx)
+		if err != nil {
+			return nil, err
+		}
+''', '''		var pays bool
+		if !relevant {
+			var err error
+			pays, err = ro.paysWatchedAddr(tx)
+			if err != nil {
+				return nil, err
+			}
+		}
+''')], ["C09.O1"])
+mut("c09-disconnect-any-block", ["C09"], [(RS, '''	if blockDisconnected.BlockHash() != rs.curStamp.Hash {
+		return
+	}
+''', '')], ["C09.G2"])
+mut("c09-advance-before-notify", ["C09"], [(RS, '''	err = rs.notifyBlockWithFilter(&header, &newStamp, blockFilter)
+	if err != nil {
+		return err
+	}
+
+	// With the block successfully notified, we'll advance our state to it.
+	rs.curHeader = header
+	rs.curStamp = newStamp
+
+	return nil''', '''	rs.curHeader = header
+	rs.curStamp = newStamp
+	err = rs.notifyBlockWithFilter(&header, &newStamp, blockFilter)
+	if err != nil {
+		return err
+	}
+
+	return nil''')], ["C09.G1"])
+mut("c09-disconnect-keeps-retry-queue", ["C09"], [(RS, '''				blockRetryQueue.remove(ntfn.Header())
+
+''', '')], ["C09.O2"])
+mut("c09-handle-despite-retry-queue", ["C09"], [(RS, '\t\t\t\t\tif blockRetryQueue.peek() != nil {\n\t\t\t\t\t\tlog.Debugf("Stashing %v", ntfn)\n\t\t\t\t\t\tblockRetryQueue.push(ntfn)\n\t\t\t\t\t\tcontinue rescanLoop\n\t\t\t\t\t}\n', "")], ["C09.O2"])
+mut("c09-subscribe-next-height", ["C09"], [(RS, '\t\t\t\tblockSubscription, err = chain.Subscribe(\n\t\t\t\t\tuint32(rs.curStamp.Height),\n\t\t\t\t)\n', '\t\t\t\tblockSubscription, err = chain.Subscribe(\n\t\t\t\t\tuint32(nextHeight),\n\t\t\t\t)\n')], ["C09.O2"])
+mut("c09-skip-filter-verify", ["C09"], [(RS, '''	if _, err := VerifyBasicBlockFilter(filter, block); err != nil {
+		return nil, fmt.Errorf("error verifying filter against "+
+			"downloaded block %d (%s), possibly got invalid "+
+			"filter from peer: %v", curStamp.Height, curStamp.Hash,
+			err)
+	}
+''', '''	_ = filter
+''')], ["C09.O1"])
+mut("c09-watchlist-not-extended", ["C09"], [(RS, '''			ro.watchList = append(ro.watchList, pkScript)
+''', '')], ["C09.V1"])
+mut("c09-pop-before-success", ["C09"], [(RS, '\t\t\t\t\terr := rs.handleBlockConnected(\n\t\t\t\t\t\tretryBlock,\n\t\t\t\t\t)\n\t\t\t\t\tswitch err {', '\t\t\t\t\terr := rs.handleBlockConnected(\n\t\t\t\t\t\tretryBlock,\n\t\t\t\t\t)\n\t\t\t\t\t_ = blockRetryQueue.pop()\n\t\t\t\t\tswitch err {')], ["C09.O2"])
+mut("c09-quiet-if-form", ["C09"], [(RS, '''	if blockDisconnected.BlockHash() != rs.curStamp.Hash {
+		return
+	}
+''', '''	if isCurrent := blockDisconnected.BlockHash() == rs.curStamp.Hash; !isCurrent {
+		return
+	}
+''')], [])
